@@ -140,6 +140,16 @@ def one(arg):
             rec('transform#frame.rejected_call_leaves_fitted_state_unchanged', before == after2 or after == after2, 'after transform of malformed X (%s) the fitted state changed' % name, dict(malformation=name))
             if after != after2: break
         if diff: fitted = None; break
+    # an object rebuilt from JSON is a fitted object too: fitting it must be refused and must leave it unchanged
+    try:
+        from rtc.battery import reload
+        re_ = reload(fitted if fitted is not None else constructor(kind, case, cfg), kind) if fitted is not None else None
+        if re_ is not None:
+            b0 = state_of(re_, case['X']); r = outcome(lambda: re_.fit(case['X'], case['y']))
+            rec('fit#raises.AssertionError.second_fit_of_reloaded_object', r[0] == 'reject', 'fit of an object reloaded from JSON: %s' % r[0])
+            rec('fit#frame.rejected_call_leaves_fitted_state_unchanged', b0 == state_of(re_, case['X']), 'after fitting a reloaded object its state changed', dict(malformation='fit_of_reloaded'))
+    except Exception as e:
+        pass
     # a second fit of a fitted object with VALID data
     if fitted is not None:
         before = state_of(fitted, case['X'])
